@@ -675,4 +675,353 @@ theorem InvA_run (P : Prim) (ops : List Op) {s : St} (h : InvA P s) : InvA P (ru
   | cons op t ih => exact ih (InvA_step P h op)
 
 
+
+
+/-! ## resolving an account leaf in the database -/
+
+theorem aget_of_mem {α : Type} (l : List (Bytes × α)) (k : Bytes) (v : α) (h : (k, v) ∈ l) :
+    ∃ v', aget l k = some v' ∧ (k, v') ∈ l := by
+  induction l with
+  | nil => simp at h
+  | cons x t ih =>
+    obtain ⟨k0, v0⟩ := x
+    by_cases hk : k0 = k
+    · subst hk; exact ⟨v0, by simp [aget], by simp⟩
+    · have : (k, v) ∈ t := by
+        rcases List.mem_cons.mp h with h' | h'
+        · simp at h'; exact absurd h'.1.symm hk
+        · exact h'
+      obtain ⟨v', h1, h2⟩ := ih this
+      exact ⟨v', by simp [aget, hk, h1], List.mem_cons_of_mem _ h2⟩
+
+/-- no two different values under one hash / one trie root; the hash is never the empty string -/
+structure Inj (P : Prim) : Prop where
+  root : ∀ c₁ c₂, P.root c₁ = P.root c₂ → c₁ = c₂
+  hash : ∀ b₁ b₂, P.H b₁ = P.H b₂ → b₁ = b₂
+
+theorem decAcct_encAcct (P : Prim) (db : Db) (o : Acct) (hi : Inj P) (hlen : ∀ b, P.H b ≠ []) (hok : DbOK P db) (hst : Stored P db o)
+    (d1 : DecOK (encAcct P o)) (d2 : o.dlgs ≠ [] → DecOK (dlgsBlob o.dlgs)) :
+    ∃ o', decAcct P db (encAcct P o) = some o' ∧ o'.obs = o.obs ∧ o'.deleted = false := by
+  obtain ⟨s1, s2, s3⟩ := hst
+  obtain ⟨k1, k2⟩ := hok
+  -- storage
+  have hS : ∃ c', loadStorage P db (storageRoot P o) = some c' ∧ norm c' = norm o.storage := by
+    unfold loadStorage
+    by_cases he : storageRoot P o = P.root []
+    · rw [if_pos he]
+      refine ⟨[], rfl, ?_⟩
+      have := hi.root _ _ he
+      rw [this]; rfl
+    · rw [if_neg he]
+      obtain ⟨c', h1, h2⟩ := aget_of_mem _ _ _ s1
+      refine ⟨c', h1, ?_⟩
+      have := k2 _ h2
+      exact (hi.root _ _ this).symm
+  -- code
+  have hC : loadCode P db (P.H o.code) = some o.code := by
+    unfold loadCode
+    by_cases he : P.H o.code = P.H []
+    · rw [if_pos he, hi.hash _ _ he]
+    · rw [if_neg he]
+      rcases s2 with h0 | hm
+      · rw [h0] at he; exact absurd rfl he
+      · obtain ⟨b', h1, h2⟩ := aget_of_mem _ _ _ hm
+        have := k1 _ h2
+        rw [h1, hi.hash _ _ this]
+  -- delegations
+  have hD : loadDlgs db (dlgsHash P o.dlgs) = some o.dlgs := by
+    unfold loadDlgs dlgsHash
+    by_cases he : o.dlgs = []
+    · simp [he]
+    · rw [if_neg he, if_neg (hlen _)]
+      rcases s3 with h0 | hm
+      · exact absurd h0 he
+      · obtain ⟨b', h1, h2⟩ := aget_of_mem _ _ _ hm
+        have := k1 _ h2
+        have hb : b' = dlgsBlob o.dlgs := (hi.hash _ _ this).symm
+        rw [h1, hb]
+        have := (d2 he).dec_enc (i := bytesListItem o.dlgs)
+        simp only [Option.bind_some]
+        unfold dlgsBlob
+        rw [this]
+        simp
+  obtain ⟨c', hS1, hS2⟩ := hS
+  refine ⟨{ nonce := o.nonce, balance := o.balance, code := o.code, storage := c', delBal := o.delBal, dlgs := o.dlgs }, ?_, ?_, rfl⟩
+  · unfold decAcct
+    have : dec (encAcct P o) = some (acctItem P o) := d1.dec_enc
+    rw [this]
+    simp only [acctItem, iL, pB_iB, pN_iN, Option.bind_some, hS1, hC, hD]
+  · simp [Acct.obs, hS2]
+
+
+
+
+/-! ## key sets in canonical order -/
+
+theorem cget_unit (l : List Bytes) (k : Bytes) : cget (l.map (fun a => (a, ([1] : Bytes)))) k = if k ∈ l then [1] else [] := by
+  induction l with
+  | nil => simp
+  | cons x t ih =>
+    simp only [List.map_cons, cget_cons, ih, List.mem_cons]
+    by_cases h : x = k
+    · simp [h]
+    · have h' : ¬ k = x := fun e => h e.symm
+      simp [h, h']
+
+theorem sortKeys_ext {l₁ l₂ : List Bytes} (h : ∀ x, x ∈ l₁ ↔ x ∈ l₂) : sortKeys l₁ = sortKeys l₂ := by
+  unfold sortKeys
+  rw [norm_ext]
+  intro k
+  rw [cget_unit, cget_unit]
+  simp [h k]
+
+theorem sorted_mem_get (n : Content) (hs : SortedC n) (k v : Bytes) (h : (k, v) ∈ n) : cget n k = v := by
+  induction n with
+  | nil => simp at h
+  | cons x t ih =>
+    obtain ⟨k0, v0⟩ := x
+    rcases List.mem_cons.mp h with h' | h'
+    · simp at h'; rw [h'.1, h'.2, cget_cons]; simp
+    · have hne : k0 ≠ k := fun e => sorted_head_absent hs (k, v) h' e.symm
+      rw [cget_cons, if_neg hne]
+      exact ih (List.pairwise_cons.mp hs).2 h'
+
+theorem mem_sortKeys (l : List Bytes) (x : Bytes) : x ∈ sortKeys l ↔ x ∈ l := by
+  unfold sortKeys
+  constructor
+  · intro h
+    obtain ⟨kv, hkv, hx⟩ := List.mem_map.mp h
+    obtain ⟨k, v⟩ := kv
+    simp at hx; subst hx
+    have h1 := sorted_mem_get _ (norm_sorted _) k v hkv
+    have h2 := norm_noEmpty _ (k, v) hkv
+    rw [norm_get, cget_unit] at h1
+    by_cases hm : k ∈ l
+    · exact hm
+    · rw [if_neg hm] at h1; exact absurd h1.symm h2
+  · intro h
+    have h1 : cget (norm (l.map (fun a => (a, ([1] : Bytes))))) x = [1] := by rw [norm_get, cget_unit, if_pos h]
+    apply Classical.byContradiction
+    intro hc
+    have := cget_absent (norm (l.map (fun a => (a, ([1] : Bytes))))) x (fun kv hkv e => hc (List.mem_map.mpr ⟨kv, hkv, e⟩))
+    rw [this] at h1; simp at h1
+
+theorem sortKeys_idem (l : List Bytes) : sortKeys (sortKeys l) = sortKeys l :=
+  sortKeys_ext (mem_sortKeys l)
+
+theorem aget_some_of_mem_keys {α : Type} (l : List (Bytes × α)) (k : Bytes) (h : k ∈ l.map (·.1)) : ∃ v, aget l k = some v := by
+  induction l with
+  | nil => simp at h
+  | cons x t ih =>
+    obtain ⟨k0, v0⟩ := x
+    by_cases hk : k0 = k
+    · exact ⟨v0, by simp [aget, hk]⟩
+    · have : k ∈ t.map (·.1) := by
+        rcases List.mem_cons.mp h with h' | h'
+        · exact absurd h'.symm hk
+        · exact h'
+      obtain ⟨v, hv⟩ := ih this
+      exact ⟨v, by simp [aget, hk, hv]⟩
+
+/-! ## Commit, then New: the whole enumeration -/
+
+/-- everything stored in the three tries and the blob store after `s` -/
+def storedValues (s : St) : List Bytes :=
+  s.t.acct.map (·.2) ++ s.t.val.vals.map (·.2) ++ [s.t.val.index, s.t.val.stat, s.t.val.queue] ++ s.t.stk.recs.map (·.2)
+    ++ [s.t.stk.relats] ++ s.db.blobs.map (·.2)
+
+theorem cget_mem_or_nil (c : Content) (k : Bytes) : cget c k = [] ∨ cget c k ∈ c.map (·.2) := by
+  induction c with
+  | nil => left; rfl
+  | cons x t ih =>
+    obtain ⟨k0, v0⟩ := x
+    rw [cget_cons]
+    by_cases h : k0 = k
+    · right; simp [h]
+    · rw [if_neg h]; rcases ih with h' | h'
+      · left; exact h'
+      · right; simp [h']
+
+theorem decOK_nil : DecOK [] := by
+  intro i hi
+  exact decOK_of_small [] (by simp) i hi
+
+def acctRow (a : Bytes) (x : Option Acct) : Option (Bytes × AcctObs) :=
+  match x with
+  | some o => if o.blank then none else some (a, o.obs)
+  | none => none
+
+theorem blank_of_obs {o₁ o₂ : Acct} (h : o₁.obs = o₂.obs) : o₁.blank = o₂.blank := by
+  simp only [Acct.obs, AcctObs.mk.injEq] at h
+  obtain ⟨h1, h2, h3, h4, h5, h6⟩ := h
+  simp [Acct.blank, h1, h2, h3, h4, h5, h6]
+
+theorem acctRow_congr (a : Bytes) {x y : Option Acct} (h : x.map Acct.obs = y.map Acct.obs) : acctRow a x = acctRow a y := by
+  cases x with
+  | none => cases y with
+    | none => rfl
+    | some o => simp at h
+  | some o₁ => cases y with
+    | none => simp at h
+    | some o₂ =>
+      simp at h
+      simp [acctRow, blank_of_obs h, h]
+
+theorem obs_eq_rows (P : Prim) (s : St) :
+    (obs P s).accts = (acctKeys s).filterMap (fun a => acctRow a (getAcct P s a)) := by
+  unfold obs acctRow
+  rfl
+
+
+
+
+theorem encAcct_ne_nil (P : Prim) (o : Acct) : encAcct P o ≠ [] := by
+  unfold encAcct acctItem; exact enc_list_ne_nil _
+
+/-- an account read through the reopened state shows what the live object shows -/
+theorem getAcct_reopen (P : Prim) (del : Bool) (s : St) (hA : InvA P s) (hi : Inj P) (hlen : ∀ b, P.H b ≠ [])
+    (hdec : ∀ b ∈ storedValues (commit P del s), DecOK b) (s' : St)
+    (ht : s'.t = (commit P del s).t) (hdb : s'.db = (commit P del s).db) (hl : s'.accts = []) (a : Bytes) :
+    (getAcct P s' a).map Acct.obs = (getAcct P (commit P del s) a).map Acct.obs := by
+  have hc := InvA_commit hA del
+  obtain ⟨hJ, hP⟩ := iroot_JP P del s
+  have cJ : (commit P del s).acctJ = [] := hJ
+  have cP : (commit P del s).acctP = [] := hP
+  unfold getAcct rawAcct
+  rw [hl, ht, hdb]
+  simp only [aget]
+  by_cases hb : cget (commit P del s).t.acct a = []
+  · -- empty leaf: absent on both sides
+    simp only [hb, if_true]
+    cases ho : aget (commit P del s).accts a with
+    | none => simp
+    | some o =>
+      have hleaf := hc.a1 a o ho (by rw [cJ]; simp) (by rw [cP]; simp)
+      rw [hb] at hleaf
+      have hd : o.deleted = true := by
+        cases hdd : o.deleted with
+        | true => rfl
+        | false => simp [acctLeaf, hdd] at hleaf; exact absurd hleaf (encAcct_ne_nil P o)
+      simp [hd]
+  · obtain ⟨o, e, st, hlive⟩ := commit_leaves_stored hA del a hb
+    have hmem : cget (commit P del s).t.acct a ∈ storedValues (commit P del s) := by
+      rcases cget_mem_or_nil (commit P del s).t.acct a with h | h
+      · exact absurd h hb
+      · simp [storedValues, h]
+    have d1 : DecOK (encAcct P o) := by rw [← e]; exact hdec _ hmem
+    have d2 : o.dlgs ≠ [] → DecOK (dlgsBlob o.dlgs) := by
+      intro hne
+      rcases st.2.2 with h0 | hm
+      · exact absurd h0 hne
+      · apply hdec
+        simp only [storedValues, List.mem_append, List.mem_map]
+        right
+        exact ⟨_, hm, rfl⟩
+    obtain ⟨o'', hd1, hd2, hd3⟩ := decAcct_encAcct P (commit P del s).db o hi hlen hc.a5 st d1 d2
+    have hne := encAcct_ne_nil P o
+    simp only [hb, if_false, e, hne, hd1, hd3, Bool.false_eq_true, Option.map_some, hd2]
+    cases ho : aget (commit P del s).accts a with
+    | none => simp [hd1, hd3, hd2, hne]
+    | some o' =>
+      obtain ⟨e', hdel⟩ := hlive o' ho
+      subst e'
+      simp [hdel]
+
+
+
+
+theorem commit_fields_vsr (P : Prim) (del : Bool) (s : St) :
+    (commit P del s).recD = [] ∧ (commit P del s).valD = [] := by
+  obtain ⟨e1, e2, _⟩ := iroot_fields_vsr P del s
+  exact ⟨e2, e1⟩
+
+theorem filterMap_congr' {α β : Type} {f g : α → Option β} (l : List α) (h : ∀ x ∈ l, f x = g x) : l.filterMap f = l.filterMap g := by
+  induction l with
+  | nil => rfl
+  | cons a t ih =>
+    simp only [List.filterMap_cons, h a List.mem_cons_self]
+    rw [ih (fun x hx => h x (List.mem_cons_of_mem _ hx))]
+
+/-- what `New` builds from a committed state -/
+def reopened (sc : St) : St :=
+  { db := sc.db, t := sc.t, index := sortKeys sc.index, stat := sc.stat, queue := sc.queue, relats := sc.relats }
+
+/-- **Commit, then New from the three roots: the reopened state shows exactly what the live object shows** -/
+theorem reopen_obs (P : Prim) (del : Bool) (s : St) (hA : InvA P s) (hV : InvVSR s) (hi : Inj P) (hlen : ∀ b, P.H b ≠ [])
+    (hsz : ∀ b ∈ storedValues (commit P del s), b.length < 2 ^ 64) :
+    ∃ s', openSt (commit P del s).db (roots P (commit P del s)) = some s' ∧ obs P s' = obs P (commit P del s) := by
+  have hdec : ∀ b ∈ storedValues (commit P del s), DecOK b := fun b hb => decOK_of_small b (hsz b hb)
+  have hget : ∀ (c : Content) (k : Bytes), (∀ b ∈ c.map (·.2), b ∈ storedValues (commit P del s)) → DecOK (cget c k) := by
+    intro c k hc
+    rcases cget_mem_or_nil c k with h | h
+    · rw [h]; exact decOK_nil
+    · exact hdec _ (hc _ h)
+  have h1 : DecOK (commit P del s).t.val.index := hdec _ (by simp [storedValues])
+  have h2 : DecOK (commit P del s).t.val.stat := hdec _ (by simp [storedValues])
+  have h3 : DecOK (commit P del s).t.val.queue := hdec _ (by simp [storedValues])
+  have h4 : DecOK (commit P del s).t.stk.relats := hdec _ (by simp [storedValues])
+  have hopen : openSt (commit P del s).db (roots P (commit P del s)) = some (reopened (commit P del s)) :=
+    reopen_loads P del s hV.cr h1 h2 h3 h4
+  refine ⟨_, hopen, ?_⟩
+  have hc := InvA_commit hA del
+  obtain ⟨hJ, hP⟩ := iroot_JP P del s
+  obtain ⟨hrD, _⟩ := commit_fields_vsr P del s
+  have hvc : InvVSR (commit P del s) := InvVSR_of_eq (InvVSR_iroot P del hV) rfl rfl rfl rfl rfl rfl rfl rfl
+  simp only [obs, Obs.mk.injEq]
+  refine ⟨?_, ?_, rfl, rfl, ?_, rfl⟩
+  · -- accounts
+    have hk : acctKeys (reopened (commit P del s)) = acctKeys (commit P del s) := by
+      unfold acctKeys
+      apply sortKeys_ext
+      intro x
+      have ea : (reopened (commit P del s)).accts = [] := rfl
+      have et : (reopened (commit P del s)).t = (commit P del s).t := rfl
+      rw [ea, et]
+      simp only [List.map_nil, List.nil_append, List.mem_append]
+      constructor
+      · exact Or.inr
+      · rintro (h | h)
+        · obtain ⟨o, ho⟩ := aget_some_of_mem_keys _ _ h
+          rcases hc.a4 x o ho with h' | h' | h'
+          · have : (commit P del s).acctJ = [] := hJ
+            rw [this] at h'; simp at h'
+          · have : (commit P del s).acctP = [] := hP
+            rw [this] at h'; simp at h'
+          · exact h'
+        · exact h
+    rw [hk]
+    apply filterMap_congr'
+    intro a _
+    have := acctRow_congr a (getAcct_reopen P del s hA hi hlen hdec
+      (reopened (commit P del s)) rfl rfl rfl a)
+    exact this
+  · -- validators
+    show List.filterMap _ (sortKeys (sortKeys (commit P del s).index)) = _
+    rw [sortKeys_idem]
+    apply filterMap_congr'
+    intro a _
+    rw [reopen_getVal P del s (fun a => hget _ a (fun b hb => by simp [storedValues, hb])) hV.cv (reopened (commit P del s)) rfl rfl a]
+  · -- staking records
+    have hk : recKeys (reopened (commit P del s)) = recKeys (commit P del s) := by
+      unfold recKeys
+      apply sortKeys_ext
+      intro x
+      have ea : (reopened (commit P del s)).recs = [] := rfl
+      have et : (reopened (commit P del s)).t = (commit P del s).t := rfl
+      rw [ea, et]
+      simp only [List.map_nil, List.nil_append, List.mem_append]
+      constructor
+      · exact Or.inr
+      · rintro (h | h)
+        · obtain ⟨r, hr⟩ := aget_some_of_mem_keys _ _ h
+          rcases hvc.ks x r hr with h' | h'
+          · rw [hrD] at h'; simp at h'
+          · exact h'
+        · exact h
+    rw [hk]
+    apply filterMap_congr'
+    intro k _
+    rw [reopen_getSRec P del s (fun k => hget _ k (fun b hb => by simp [storedValues, hb])) hV.cs (reopened (commit P del s)) rfl rfl k]
+
+
 end YouVerif.C10
